@@ -172,41 +172,28 @@ Definition grant_one_res (r : option loc) (d : dst) : Prop :=
   | _, _ => False
   end.
 
+Ltac one_tac :=
+  unfold view, grant_one_res, grant_one; dm;
+  rewrite lift_check by exact Hwf; pose proof (ix_check 1) as Hi;
+  destruct (check k 1 s) as [g s1] eqn:C; cbn [fst snd] in *;
+  destruct (check_keeps_all k 1 s) as (A & B & Pb & Nd & _); rewrite C in *; cbn [snd] in *;
+  destruct g; dm;
+  [ rewrite lift_get_index; repeat (progress (dm; cbn [local_of l_index]; rewrite ?(ltb_true _ _ Hi)));
+    eexists _, _; split; [reflexivity|]; unfold ret; split; [|split]; [constructor; cbn; auto | reflexivity | ];
+    split; [reflexivity|]; unfold slot; rewrite A; reflexivity
+  | eexists _, _; split; [reflexivity|]; unfold ret; split; [|split]; [constructor; cbn; auto | reflexivity | exact I] ].
+
 Theorem tie_next_ref_mut_init : exists r d, drun (d_next_ref_mut_init E) (view k s out) = Some (r, d) /\ grant_one_res r d.
-Proof.
-  unfold d_next_ref_mut_init, view, grant_one_res, grant_one. dm.
-  rewrite lift_check by exact Hwf. pose proof (ix_check 1) as Hi.
-  destruct (check k 1 s) as [g s1] eqn:C. cbn [fst snd] in *.
-  destruct (check_keeps_all k 1 s) as (A & B & Pb & Nd & _). rewrite C in *. cbn [snd] in *.
-  destruct g; dm.
-  - rewrite lift_get_index. repeat (progress (dm; cbn [local_of l_index]; rewrite ?(ltb_true _ _ Hi))).
-    eexists _, _. split; [reflexivity|]. unfold ret. split; [|split]; [constructor; cbn; auto | reflexivity | ].
-    split; [reflexivity|]. unfold slot. rewrite A. reflexivity.
-  - eexists _, _. split; [reflexivity|]. unfold ret. split; [|split]; [constructor; cbn; auto | reflexivity | exact I].
-Qed.
+Proof. unfold d_next_ref_mut_init. one_tac. Qed.
+
+Theorem tie_next_ref : exists r d, drun (d_next_ref E) (view k s out) = Some (r, d) /\ grant_one_res r d.
+Proof. unfold d_next_ref. one_tac. Qed.
+
+Theorem tie_next_ref_mut : exists r d, drun (d_next_ref_mut E) (view k s out) = Some (r, d) /\ grant_one_res r d.
+Proof. unfold d_next_ref_mut. one_tac. Qed.
 End One.
 
-Section One'.
-Variables (k : stage) (s : mstate) (src out : list cell).
-Hypothesis Hwf : wf k s.
-Local Notation E := (denv_of k s src).
 
-Theorem tie_next_ref : exists r d, drun (d_next_ref E) (view k s out) = Some (r, d) /\ grant_one_res k s out r d.
-Proof.
-  destruct (tie_next_ref_mut_init k s src out Hwf) as (r & d & H & G). exists r, d. split; [|exact G].
-  unfold d_next_ref, d_next_ref_mut_init, drun, dbind in *.
-  destruct (lift _ _) as [[b d1]|]; [|discriminate]. destruct (then_ _ _ _) as [[r1 d2]|]; [|discriminate].
-  unfold dret in *. exact H.
-Qed.
-
-Theorem tie_next_ref_mut : exists r d, drun (d_next_ref_mut E) (view k s out) = Some (r, d) /\ grant_one_res k s out r d.
-Proof.
-  destruct (tie_next_ref_mut_init k s src out Hwf) as (r & d & H & G). exists r, d. split; [|exact G].
-  unfold d_next_ref_mut, d_next_ref_mut_init, drun, dbind in *.
-  destruct (lift _ _) as [[b d1]|]; [|discriminate]. destruct (then_ _ _ _) as [[r1 d2]|]; [|discriminate].
-  unfold dret in *. exact H.
-Qed.
-End One'.
 
 Lemma pass_on_unit (m : DM unit) d : (v <~ m ;; dret tt) d = m d.
 Proof. unfold dbind, dret. destruct (m d) as [[[] d']|]; reflexivity. Qed.
